@@ -19,6 +19,17 @@ QW_TAIL = ("            return self._actually_write()\n"
 CT_TAIL = ("        d.addCallback(lambda _: self._really_put_crypttext_hashes(hashes))\n"
            "        return d\n")
 
+# Encoder.done / close_all_shareholders / CHKUploader._encrypted_done (C06.11)
+DONE_STORE = "        # update our sharemap\n        self._shares_placed = set(self.landlords.keys())\n"
+CLOSE_LOOP = ("        dl = []\n        for shareid in list(self.landlords):\n"
+              "            d = self.landlords[shareid].close()\n")
+RES_LOOP = ("        for shnum in e.get_shares_placed():\n"
+            "            server = self._server_trackers[shnum].get_server()\n"
+            "            sharemap.add(shnum, server)\n"
+            "            servermap.add(server, shnum)\n")
+ENC_AWAIT = ("        verifycap = yield self._encoder.start()\n"
+             "        results = self._encrypted_done(verifycap)\n")
+
 MUTANTS = [
     # ---- C06.1 success gate of server selection
     M("gate-compares-needed-shares", UP,
@@ -139,7 +150,7 @@ MUTANTS = [
     M("err-drops-failure", EN,
       "            return f.value.subFailure\n        return f\n", "            return f.value.subFailure\n", "C06.7"),
     M("placed-is-all-shares", EN,
-      "        self._shares_placed = set(self.landlords.keys())", "        self._shares_placed = set(range(self.num_shares))", "C06.7"),
+      "        self._shares_placed = set(self.landlords.keys())", "        self._shares_placed = set(range(self.num_shares))", "C06.11"),
     # ---- C06.8 the proxy hands every remote outcome to its caller
     M("close-pipelined-behind-dropped-write", LY, CLOSE_IF + CLOSE_TAIL,        # seeded C06-A
       "        if self._write_buffer.get_queued_bytes() > 0:\n"
@@ -288,6 +299,69 @@ MUTANTS = [
       "            d.addErrback(self._remove_shareholder, shareid, \"start\")\n            dl.append(d)\n",
       "            dl.append(self.landlords[shareid].put_header().addErrback(self._remove_shareholder, shareid, \"start\"))\n",
       None),
+    # ---- C06.11 the reported placed set is the surviving landlords at completion
+    M("placed-snapshot-before-close-answers", EN, DONE_STORE, "",                      # seeded C06-C
+      "C06.11", edits=[(EN, CLOSE_LOOP,
+                        "        self._shares_placed = set(self.landlords.keys())\n        dl = []\n"
+                        "        for shareid in self._shares_placed:\n"
+                        "            d = self.landlords[shareid].close()\n")]),
+    M("placed-copied-from-close-stage-snapshot", EN, DONE_STORE,
+      "        self._shares_placed = set(self._closing)\n", "C06.11",
+      edits=[(EN, CLOSE_LOOP, "        self._closing = list(self.landlords)\n" + CLOSE_LOOP)]),
+    M("placed-merges-shares-asked-to-close", EN, DONE_STORE,
+      "        self._shares_placed = set(self.landlords.keys()) | self._closing\n", "C06.11",
+      edits=[(EN, CLOSE_LOOP, "        self._closing = set(self.landlords)\n" + CLOSE_LOOP)]),
+    M("placed-helper-also-run-by-close-stage", EN, DONE_STORE,
+      "        self._note_placed()\n", "C06.11",
+      edits=[(EN, CLOSE_LOOP, "        self._note_placed()\n" + CLOSE_LOOP),
+             (EN, "    def get_shares_placed(self):",
+              "    def _note_placed(self):\n        self._shares_placed = set(self.landlords.keys())\n\n"
+              "    def get_shares_placed(self):")]),
+    M("placed-getter-returns-all-shares", EN, "        return self._shares_placed",
+      "        return set(range(self.num_shares))", "C06.11"),
+    M("results-name-every-allocated-share", UP, "        for shnum in e.get_shares_placed():\n",
+      "        for shnum in self._server_trackers:\n", "C06.11"),
+    M("results-add-removed-trackers-afterwards", UP, RES_LOOP,
+      RES_LOOP + "        for shnum, tracker in self._server_trackers.items():\n"
+      "            servermap.add(tracker.get_server(), shnum)\n", "C06.11"),
+    M("results-name-server-of-another-share", UP,
+      "            server = self._server_trackers[shnum].get_server()\n            sharemap.add(shnum, server)\n",
+      "            server = self._server_trackers[min(self._server_trackers)].get_server()\n"
+      "            sharemap.add(shnum, server)\n", "C06.11"),
+    M("results-built-before-encoder-awaited", UP, ENC_AWAIT,
+      "        d = self._encoder.start()\n        results = self._encrypted_done(None)\n"
+      "        yield d\n", "C06.11"),
+    M("benign-placed-via-completion-helper", EN, DONE_STORE,
+      "        self._note_placed()\n", None,
+      edits=[(EN, "    def get_shares_placed(self):",
+              "    def _note_placed(self):\n        self._shares_placed = set(self.landlords.keys())\n\n"
+              "    def get_shares_placed(self):")]),
+    M("benign-placed-set-comprehension", EN, DONE_STORE,
+      "        survivors = self.landlords\n        self._shares_placed = {shnum for shnum in survivors}\n", None),
+    M("benign-placed-initialised-empty", EN, "        self._aborted = False\n",
+      "        self._aborted = False\n        self._shares_placed = set()\n", None),
+    M("benign-placed-live-view-bound-early", EN, CLOSE_LOOP,
+      "        self._shares_placed = self.landlords.keys()\n" + CLOSE_LOOP, None),
+    M("benign-placed-computed-on-demand", EN, DONE_STORE, "", None,
+      edits=[(EN, "        return self._shares_placed", "        return set(self.landlords)")]),
+    M("benign-results-loop-sorted-tracker-local", UP, RES_LOOP,
+      "        for shnum in sorted(self._encoder.get_shares_placed()):\n"
+      "            tracker = self._server_trackers[shnum]\n"
+      "            server = tracker.get_server()\n"
+      "            sharemap.add(shnum, server)\n"
+      "            servermap.add(server, shnum)\n", None),
+    M("benign-results-as-success-callback", UP, ENC_AWAIT,
+      "        d = self._encoder.start()\n        d.addCallback(self._encrypted_done)\n"
+      "        results = yield d\n", None),
+    M("results-sharemap-keyed-by-server", UP, "            sharemap.add(shnum, server)\n",           # sweep survivor (arg-swap)
+      "            sharemap.add(server, shnum)\n", "C06.11"),
+    M("benign-results-setdefault-form", UP,
+      "            sharemap.add(shnum, server)\n            servermap.add(server, shnum)\n",
+      "            sharemap.setdefault(shnum, set()).add(server)\n"
+      "            servermap.setdefault(server, set()).add(shnum)\n", None),
+    M("vanish-encrypted-done", UP, "    def _encrypted_done(self, verifycap):", "    def _make_results(self, verifycap):",
+      "ANALYSIS-ERROR", edits=[(UP, "        results = self._encrypted_done(verifycap)",
+                                "        results = self._make_results(verifycap)")]),
     M("vanish-proxy-close", LY, "    def close(self):", "    def finish(self):", "ANALYSIS-ERROR"),
     # ---- vanished anchor
     M("vanish-remove-shareholder", EN,
